@@ -396,6 +396,18 @@ pub fn run_readonly(bytes: &[u8]) -> Vec<(String, String)> {
                     }
                     let _ = s.seek(SeekFrom::End(0));
                     let _ = s.seek(SeekFrom::Current(-1));
+                    // extreme arguments from every kind of position (a damaged length can be huge)
+                    for from_end in [0i64, -3] {
+                        if s.seek(SeekFrom::End(from_end)).is_ok() {
+                            for sf in [SeekFrom::Current(i64::MAX), SeekFrom::Current(i64::MIN), SeekFrom::Current(1), SeekFrom::End(i64::MIN), SeekFrom::End(i64::MAX), SeekFrom::Start(u64::MAX)] {
+                                let _ = s.seek(sf);
+                            }
+                            let mut b = [0u8; 16];
+                            let _ = s.read(&mut b);
+                        }
+                    }
+                    let _ = s.seek(SeekFrom::Start(0));
+                    let _ = s.seek(SeekFrom::Current(i64::MAX));
                 }
             }
             let _ = l.comp.entry("/nope");
